@@ -37,8 +37,6 @@ const (
 // FeedLog continually feeds checkpoints from the given log into the witness.
 // This method blocks until the context is done.
 func FeedLog(ctx context.Context, l config.Log, w feeder.Witness, c *http.Client, interval time.Duration) error {
-	sdb := client.NewSumDB(tileHeight, l.Verifier, l.URL, c)
-
 	fetchProof := func(ctx context.Context, from, to log.Checkpoint) ([][]byte, error) {
 		if from.Size == 0 {
 			return [][]byte{}, nil
@@ -47,7 +45,8 @@ func FeedLog(ctx context.Context, l config.Log, w feeder.Witness, c *http.Client
 		if to.Size >= 1<<62 {
 			return nil, fmt.Errorf("tree size %d is too large", to.Size)
 		}
-		tr := tileReader{c: sdb}
+		// All the tile requests made for this proof end when the feed cycle's context does.
+		tr := tileReader{c: client.NewSumDBWithContext(ctx, tileHeight, l.Verifier, l.URL, c)}
 		tree := tlog.Tree{
 			N:    int64(to.Size),
 			Hash: tlog.Hash(to.Hash),
@@ -65,7 +64,8 @@ func FeedLog(ctx context.Context, l config.Log, w feeder.Witness, c *http.Client
 		return r, nil
 	}
 
-	fetchCheckpoint := func(_ context.Context) ([]byte, error) {
+	fetchCheckpoint := func(ctx context.Context) ([]byte, error) {
+		sdb := client.NewSumDBWithContext(ctx, tileHeight, l.Verifier, l.URL, c)
 		sdbcp, err := sdb.LatestCheckpoint()
 		if err != nil {
 			return nil, fmt.Errorf("failed to get latest checkpoint: %v", err)
